@@ -605,7 +605,7 @@ func minimise(e *executor, job *Job, idx int, runSeed uint64, prefix []runSpec, 
 	}
 	// reproducibility first: a failure that does not replay is harness trouble, not a violation
 	if o := fails(prefix, c, choices); o == nil {
-		return nil, fmt.Sprintf("run %d (seed %d): violation %q did not reproduce when re-executed from the same state: suspected uncontrolled nondeterminism", idx, runSeed, class)
+		return nil, fmt.Sprintf("run %d (seed %d): violation %q did not reproduce when re-executed from the same state: suspected uncontrolled nondeterminism; the unreproduced report was: %s", idx, runSeed, class, out.Res.Violation.Msg)
 	}
 	// the prefix: first try without, then drop elements one at a time
 	if len(prefix) > 0 {
